@@ -44,6 +44,7 @@ func (fe *FnExec) doCall(fr *frame, st *State, in ssa.Instruction, cc *ssa.CallC
 // doCallWith executes a call (also used for deferred calls, whose function
 // value and arguments were evaluated at the defer statement).
 func (fe *FnExec) doCallWith(fr *frame, st *State, in ssa.Instruction, cc *ssa.CallCommon, rt types.Type, fnv Val, args []Val) Val {
+	fe.curInstr = in
 	if rt == nil {
 		if sig, ok := cc.Value.Type().Underlying().(*types.Signature); ok {
 			rt = resultType(sig)
@@ -56,13 +57,27 @@ func (fe *FnExec) doCallWith(fr *frame, st *State, in ssa.Instruction, cc *ssa.C
 	}
 	key, sig := calleeKey(cc)
 	site := fr.ords[in]
+	if fr.con != nil {
+		for _, g := range fr.con.Ghosts {
+			if g.After == "before:"+site {
+				ctx := fe.ctxFor(fr, st)
+				fe.assignLvalue(ctx, st, g.LHS, ctx.eval(g.RHS.E))
+			}
+		}
+	}
 	// full argument vector: receiver first
 	var full []Val
+	var ftypes []types.Type
 	if cc.IsInvoke() {
 		full = append([]Val{fnv}, args...)
+		ftypes = append(ftypes, cc.Value.Type())
 	} else {
 		full = args
 	}
+	for _, a := range cc.Args {
+		ftypes = append(ftypes, a.Type())
+	}
+	fe.curArgTypes = ftypes
 	if key != "" {
 		if con := fe.eng.contracts[key]; con != nil && !con.Inline {
 			fe.used[key] = true
@@ -96,9 +111,11 @@ func (fe *FnExec) unknownCall(fr *frame, st *State, key string, cc *ssa.CallComm
 		key = "dynamic:" + cc.Value.Type().String()
 	}
 	fe.unknown[key]++
+	fe.preCallInv(fr, st, fr.ords[fe.curInstr], full, fe.curArgTypes, fe.curInstr.Pos())
 	for _, a := range full {
 		fe.havocArg(st, a, 0)
 	}
+	fe.reestablishArgs(st, full, fe.curArgTypes)
 	if rt == nil {
 		return TupleV{}
 	}
@@ -236,6 +253,7 @@ func (fe *FnExec) applyContract(fr *frame, st *State, in ssa.Instruction, site s
 		return c
 	}
 	pos := in.Pos()
+	fe.preCallInv(fr, st, site, full, fe.curArgTypes, pos)
 	for _, rq := range con.Requires {
 		g := mk(st, st).evalBool(rq.X)
 		fe.oblige(fr, fmt.Sprintf("call[%s].pre:%s", site, rq.Label), rq.Props, st.pc, g, pos, rq.Src)
@@ -280,6 +298,16 @@ func (fe *FnExec) applyContract(fr *frame, st *State, in ssa.Instruction, site s
 			if _, ok := post.binds[n]; !ok {
 				post.binds[n] = fe.letFresh(con, l, n)
 			}
+		}
+	}
+	fe.reestablishArgs(st, full, fe.curArgTypes)
+	for _, name := range con.GhostInit {
+		if v, ok := post.binds[name]; ok {
+			var rtt types.Type
+			if sig != nil && sig.Results().Len() > 0 {
+				rtt = sig.Results().At(0).Type()
+			}
+			fe.assumeResultInv(st, v, rtt)
 		}
 	}
 	for _, en := range con.Ensures {
